@@ -236,9 +236,9 @@ var variants = map[string][]string{
 	"writer":      {"sync", "async", "sync-hash", "async-leastbytes", "sync-multitopic"},
 	"reader":      {"plain"},
 	"groupreader": {"sync-commit", "interval-commit"},
-	"conn":        {"leader"},
+	"conn":        {"leader", "leader", "leader-old-produce"},
 	"batch":       {"v2", "v1-gzip", "v2-snappy"},
-	"client":      {"ttl-short", "ttl-long", "tls-two-addresses"},
+	"client":      {"ttl-short", "ttl-long", "tls-two-addresses", "multi-bootstrap"},
 	"balancer":    {"roundrobin", "roundrobin-chunk3", "leastbytes", "hash", "hash-custom-hasher", "refhash", "crc32", "crc32-consistent", "murmur2", "murmur2-consistent"},
 	"codec":       {"gzip", "snappy", "snappy-unframed", "lz4", "zstd"},
 }
@@ -390,6 +390,9 @@ func setup(tb ev.TB, p Program) *env {
 		}
 		e.r = kafka.NewReader(cfg)
 	case "conn", "batch":
+		if p.Variant == "leader-old-produce" {
+			e.cl.SetVersions(0, 0, 0, 2) // the Conn's oldest produce path (message sets)
+		}
 		ctx, cancel := context.WithTimeout(context.Background(), 3*time.Second)
 		conn, err := e.dialer().DialLeader(ctx, "tcp", addr, "t", 0)
 		cancel()
@@ -409,6 +412,11 @@ func setup(tb ev.TB, p Program) *env {
 		}
 		e.tr = &kafka.Transport{Dial: e.nw.Dial, MetadataTTL: ttl, DialTimeout: 2 * time.Second, IdleTimeout: 5 * time.Second, ClientID: "c10"}
 		e.c = &kafka.Client{Addr: kafka.TCP(addr), Transport: e.tr, Timeout: 2 * time.Second}
+		if p.Variant == "multi-bootstrap" {
+			// the address the Client is given lists two brokers: the Transport may try them in any order, the list is the caller's
+			e.cl.AddBroker(2, "")
+			e.c.Addr = kafka.TCP(addr, "b2.fake:9092")
+		}
 		if p.Variant == "tls-two-addresses" {
 			// One Transport with a TLS configuration that names no server, used for two cluster addresses.  The fake brokers do
 			// not speak TLS: every connection attempt fails in the handshake, which is all the shared configuration needs.
@@ -907,6 +915,10 @@ func genProgram(t *rapid.T, subject string) Program {
 	}
 	nThreads := rapid.IntRange(2, 4).Draw(t, "threads")
 	menu := menus[subject]
+	if subject == "conn" && p.Variant == "leader-old-produce" {
+		// the write path and what is documented as safe to change while writing
+		menu = []string{"write", "write", "writeCompressed", "setRequiredAcks", "setRequiredAcks", "setWriteDeadline", "setDeadline", "offset", "close"}
+	}
 	for i := 0; i < nThreads; i++ {
 		n := rapid.IntRange(1, 5).Draw(t, "ops")
 		var ops []Op
